@@ -1435,6 +1435,23 @@ func (e *Env) evalCall(n *ECall) SVal {
 		if len(n.Args) != 1 {
 			e.fail("invariant %s takes one argument", inv.Name)
 		}
+		if inv.Abstract && vc.fn != nil && vc.fn.Pkg != nil && vc.fn.Pkg.Pkg.Path() != inv.Pkg {
+			if inv.asSpec == nil {
+				inv.asSpec = &SpecFunc{Name: inv.Name, Params: []Param{{Name: inv.Var, Type: "*" + inv.Type}}, Ret: "bool", Body: inv.Body, Opaque: true, Pkg: inv.Pkg}
+			}
+			uf := e.applySpecFunc(inv.asSpec, n.Args)
+			if inv.Exports == nil {
+				return uf
+			}
+			a := e.eval(n.Args[0])
+			saved := e.pkg
+			if sp := e.scopeOf(inv.Pkg); sp != nil {
+				e.pkg = sp
+			}
+			ex := e.withVars(map[string]SVal{inv.Var: a}, func() SVal { return e.eval(inv.Exports) })
+			e.pkg = saved
+			return mathBool(fmt.Sprintf("(and %s %s)", uf.t, ex.t))
+		}
 		a := e.eval(n.Args[0])
 		if sp := e.scopeOf(inv.Pkg); sp != nil && sp != e.pkgScope() {
 			saved := e.pkg
@@ -2009,6 +2026,15 @@ func (e *Env) evalLocs(x Expr) []modLoc {
 		if id, ok := n.Fun.(*EIdent); ok && id.Name == "deref" {
 			v := e.eval(n.Args[0])
 			return e.locsOfValue(v, x)
+		}
+		if id, ok := n.Fun.(*EIdent); ok && id.Name == "allelems" && len(n.Args) == 1 {
+			// allelems(T): the elements of every array/slice with element type T
+			T := e.parseType(typeArg(n.Args[0]))
+			if T == nil {
+				e.fail("allelems: element type")
+			}
+			hn, hs := vc.d.elemHeap(T)
+			return []modLoc{{heap: hn, hsort: hs, whole: true}}
 		}
 	}
 	e.fail("unsupported modifies location %s", exprString(x))
